@@ -517,6 +517,10 @@ def decompress_destripe_cbin(
                         max_s=int(max_s), ns=int(_sr.ns), nbatch=int(NBATCH), taper=SAMPLES_TAPER,
                         chunk_size=CHUNK_SIZE, offset=int(offset), nc_out=int(nc_out), nbytes=int(nbytes),
                         ns2add=int(ns2add))
+        if n_batch > 0 and first_s + SAMPLES_TAPER * 2 >= _sr.ns:
+            # the previous batch already reaches the end of the file: it is the last one and it belongs
+            # to another worker, there is nothing left to process here
+            return
         # need to redefine this here to avoid 4 byte boundary error
         win = pyfftw.empty_aligned((ncv, NBATCH), dtype="float32")
         WIN = pyfftw.empty_aligned((ncv, int(NBATCH / 2 + 1)), dtype="complex64")
